@@ -62,11 +62,12 @@ NOT DECIDED
     wlists [C15:loclist-fixup-queue]) - the clauses are about whatever the queues hold;
   * that `units[..].offsets` are the offsets Unit::write assigned (wunit_layout); `Ok` is never guaranteed; on Err nothing is
     said about which fix-ups were applied (only grew + frame).
-SELF-ATTACK (scratch copy /tmp/wunit_table-repo, GIMLI_REPO; 2026-09-24): see the final report / evidence; summary
+SELF-ATTACK (scratch copies /tmp/wunit_table-repo/m1..m5, GIMLI_REPO; 2026-09-24; unchanged tree: exit 0, 1222 verified, 7/7 canaries)
   third call passes `&mut sections.debug_loc.0` (seeded copy/paste)      -> exit 1: own-section-loc, own-section-loclists
-  second call passes `&mut sections.debug_loclists_fixups`               -> exit 1: own-section-loc, fixups-drained (+ callee pre)
+  second call passes `&mut sections.debug_loclists_fixups`               -> exit 1: own-section-loc, own-section-loclists, fixups-drained
   first two calls swapped in order                                       -> exit 0 (harmless: independent sections)
   third call deleted                                                     -> exit 1: own-section-loclists, fixups-drained
+  first call moved in front of the unit loop (into the dropped head)     -> exit 2 (R-TAIL guard, Lost)
 """
 import re
 from lib import *
